@@ -294,7 +294,8 @@ def build(sc: dict, tape: Tape):
                            delete_latency=(_lat(sc, "dlat", i, 0.005) if sc.get("dlat") else None)) for i in range(n)]
         rs = ReplicatedStore("rs", replicas=stores,
                              read_consistency=ConsistencyLevel[sc.get("rcl", "QUORUM")],
-                             write_consistency=ConsistencyLevel[sc.get("wcl", "QUORUM")])
+                             write_consistency=ConsistencyLevel[sc.get("wcl", "QUORUM")],
+                             read_timeout=float(sc.get("rto", 1.0)), write_timeout=float(sc.get("wto", 2.0)))
         out.update(stores=stores, nodes=[], rs=rs, net=None, links={}, entities=[rs, *stores])
         return out
 
